@@ -41,8 +41,8 @@ inline std::array<double, 3> dubins_ccc(const smooth::SE2d & target, double R, D
   // circle center distance
   const double d13 = (C3 - C1).norm();
 
-  if (d13 < std::numeric_limits<double>::epsilon()) {
-    // if circles coincide we just follow the circle
+  if (d13 < 1e-12 * R) {
+    // if circles coincide (up to the rounding of the centers, which scales with R) we just follow the circle
     return {dubins_angle(smooth::SO2d::Identity(), target.so2(), c13), 0, 0};
   }
 
@@ -90,7 +90,7 @@ inline std::array<double, 3> dubins_csc(const smooth::SE2d & target, double R, D
   // distance between circles
   const double d13 = (C3 - C1).norm();
 
-  if (d13 < std::numeric_limits<double>::epsilon()) {
+  if (d13 < 1e-12 * R) {
     if (c1 == c3) {
       // same initial and final, just follow the circle
       return {dubins_angle(smooth::SO2d::Identity(), target.so2(), c1), 0, 0};
